@@ -31,9 +31,10 @@ struct InvPlan {
 //  * C10-small-partial-inverse-gcd: the classes take gcd(x, product of ALL primes) instead of gcd(x, Q); wrong (or a
 //    division by zero) as soon as x vanishes modulo a prime of the range outside Q. While listed, Q is enlarged by
 //    those primes.
-//  * C10-small-inverse-int-overflow: the extended Euclid runs in `int`; trigger x >= 2^31 or T >= 2^31 (T = product
-//    of the primes of Q where x is invertible). While listed, the inverse is not evaluated for such (x, Q).
-InvPlan plan_inverse(vf::Ctx& ctx, const Range& r, uint64_t x, uint64_t qmask) {
+//  * C10-small-inverse-int-overflow (element classes only, int_euclid = true): their extended Euclid runs in `int`;
+//    trigger x >= 2^31 or T >= 2^31 (T = product of the primes of Q where x is invertible). While listed, the inverse
+//    is not evaluated for such (x, Q). (The operators class keeps A and M unsigned and its coefficients in long.)
+InvPlan plan_inverse(vf::Ctx& ctx, const Range& r, uint64_t x, uint64_t qmask, bool int_euclid) {
   InvPlan p{qmask, true};
   bool outside = false;
   for (size_t i = 0; i < r.primes.size(); ++i)
@@ -51,7 +52,7 @@ InvPlan plan_inverse(vf::Ctx& ctx, const Range& r, uint64_t x, uint64_t qmask) {
   for (size_t i = 0; i < r.primes.size(); ++i)
     if (((p.qmask >> i) & 1) && x % r.primes[i] != 0) T *= r.primes[i];
   if (x >= (uint64_t(1) << 31) || T >= (U128(1) << 31)) {
-    if (ctx.excluded(KF_SMALL_INV)) {
+    if (int_euclid && ctx.excluded(KF_SMALL_INV)) {
       ctx.hit(std::string("excluded:") + KF_SMALL_INV);
       p.evaluate = false;
     } else {
@@ -69,14 +70,14 @@ void ops_triple(vf::Ctx& ctx, const SmallOps& ops, const Range& r, unsigned a, u
   // e * m + a and (e + a) * m are computed in the 32-bit element type ("@warning Not overflow safe")
   check_ops_triple<SmallOps, unsigned int>(ctx, ops, P, a, b, c, KF_SMALL_FUSED, KF_SMALL_FUSED);
   const uint64_t full = full_mask(r);
-  InvPlan pf = plan_inverse(ctx, r, a, full);
+  InvPlan pf = plan_inverse(ctx, r, a, full, false);
   if (pf.evaluate) {
     auto got = ops.get_partial_inverse(a, (unsigned int)(P));
     check_partial_inverse(ctx, r, to_mpz(a), full, to_mpz(got.first), to_mpz(got.second), "partial_inverse_full");
     VF_CHECK(ops.get_inverse(a) == got.first, "inverse", r.text() << " a=" << a);
     if (got.second == P) VF_CHECK(ops.multiply(a, got.first) == 1 % P, "x_times_inverse", r.text() << " a=" << a);
   }
-  InvPlan pq = plan_inverse(ctx, r, a, qmask & full);
+  InvPlan pq = plan_inverse(ctx, r, a, qmask & full, false);
   if (pq.evaluate) {
     unsigned Q = (unsigned)(sub_product(r, pq.qmask).get_ui());
     auto got = ops.get_partial_inverse(a, Q);
@@ -131,7 +132,7 @@ void elem_triple(vf::Ctx& ctx, const Range& r, uint64_t a, uint64_t b, uint64_t 
     }
     return true;
   };
-  InvPlan pf = plan_inverse(ctx, r, a, full);
+  InvPlan pf = plan_inverse(ctx, r, a, full, true);
   if (pf.evaluate && identity_ok(full)) {
     auto got = fa.get_partial_inverse(E(P));
     // T is needed to know which identity the class accumulates: evaluate only when that one is clean as well
@@ -139,7 +140,7 @@ void elem_triple(vf::Ctx& ctx, const Range& r, uint64_t a, uint64_t b, uint64_t 
     VF_CHECK(fa.get_inverse() == got.first, "inverse", r.text() << " a=" << a);
     if (got.second == P) VF_CHECK((fa * got.first).get_value() == E(1 % P), "x_times_inverse", r.text() << " a=" << a);
   }
-  InvPlan pq = plan_inverse(ctx, r, a, qmask & full);
+  InvPlan pq = plan_inverse(ctx, r, a, qmask & full, true);
   if (pq.evaluate) {
     uint64_t tmask = 0;  // primes of Q where a is invertible: the identity accumulated inside the class
     for (size_t i = 0; i < r.primes.size(); ++i)
